@@ -40,6 +40,7 @@ pub const CATALOGUE: &[Operand] = &[
     Operand { ty: "(int, string)", values: &["(1, \"a\")"] },
     Operand { ty: "(int, int)|(int, int, int)", values: &["(1, 2)", "(1, 2, 3)"] },
     Operand { ty: "(int, int)|(string, string)", values: &["(1, 2)", "(\"a\", \"b\")"] },
+    Operand { ty: "(int, int)|(int, int, int)|(int, int, int, int)", values: &["(1, 2)", "(1, 2, 3)", "(1, 2, 3, 4)"] },
     Operand { ty: "(bool, int)", values: &["(true, 1)", "(false, 0)"] },
     Operand { ty: "struct{a: int}", values: &["struct{a := 1}", "struct{a := 1, b := 2}"] },
     Operand { ty: "struct{a: int}|struct{a: string}", values: &["struct{a := 1}", "struct{a := \"s\"}"] },
